@@ -305,3 +305,66 @@ func joinSp(ws []string) string {
 	}
 	return s
 }
+
+// c05d05RawUnknown: receivers that are unknown values WITHOUT any refinement struct (cty.UnknownVal(t) itself; the
+// receivers c05Refined builds have been through Refine().NewValue() once and carry an empty refinement), so that
+// the fresh-builder switch of Value.Refine is exercised on unknown values, and RefineWith() without refiners is
+// seen to hand back the receiver itself.
+func c05d05RawUnknown(ctx *Ctx, j *c05Judge, scope *[]string) {
+	r := ctx.R
+	obj := cty.Object(map[string]cty.Type{"a": cty.String})
+	type tk struct {
+		t    cty.Type
+		lit  string
+		kind string
+	}
+	tys := []tk{{cty.Number, "cty.Number", "num"}, {cty.String, "cty.String", "str"}, {cty.List(cty.String), "cty.List(cty.String)", "len"},
+		{cty.Set(cty.Number), "cty.Set(cty.Number)", "len"}, {cty.Map(cty.Bool), "cty.Map(cty.Bool)", "len"}, {cty.Bool, "cty.Bool", "other"},
+		{obj, `cty.Object(map[string]cty.Type{"a": cty.String})`, "other"}, {cty.EmptyTuple, "cty.EmptyTuple", "other"}}
+	nums := []cty.Value{cty.NumberIntVal(0), cty.NumberIntVal(2), cty.NumberFloatVal(0.5), cty.MustParseNumberVal("2"), cty.NumberIntVal(-1)}
+	call := func(kind string) c05Call {
+		switch r.Intn(5) {
+		case 0:
+			return c05Call{k: "nn"}
+		case 1:
+			if r.Intn(2) == 0 {
+				return c05Call{k: "nl"}
+			}
+		}
+		switch kind {
+		case "num":
+			a := c05Known(nums[r.Intn(len(nums))])
+			switch r.Intn(3) {
+			case 0:
+				return c05Call{k: "lo", a: a, incl: r.Intn(2) == 0}
+			case 1:
+				return c05Call{k: "hi", a: a, incl: r.Intn(2) == 0}
+			}
+			return c05Call{k: "ri", a: a, b: c05Known(nums[r.Intn(len(nums))])}
+		case "len":
+			return c05Call{k: []string{"ll", "lu", "cl"}[r.Intn(3)], n: r.Intn(4)}
+		case "str":
+			return c05Call{k: []string{"sp", "sf"}[r.Intn(2)], s: []string{"", "a", "a-", "ab", "é"}[r.Intn(5)]}
+		}
+		return c05Call{k: "nn"}
+	}
+	n := ctx.N(60, 2000)
+	cnt := 0
+	for _, t := range tys {
+		recv := c05Recv{v: cty.UnknownVal(t.t), lit: "cty.UnknownVal(" + t.lit + ")", tag: "raw-unknown"}
+		for i := 0; i < n; i++ {
+			var calls []c05Call
+			for k := r.Intn(4); k > 0; k-- {
+				calls = append(calls, call(t.kind))
+			}
+			rc := recv
+			if r.Intn(6) == 0 {
+				rc = recv.marked("m")
+			}
+			j.run(rc, calls)
+			c05d05With(ctx, rc, calls)
+			cnt++
+		}
+	}
+	*scope = append(*scope, fmt.Sprintf("raw unknown receivers (no refinement struct) of 8 types: %d random chains of length<=3, each also through RefineWith", cnt))
+}
